@@ -359,6 +359,8 @@ static void do_disr(const std::vector<std::string> &f)
 
 
 
+static std::string enc_text(const char *t, size_t n);
+
 static void do_walk(const std::vector<std::string> &f)
 {
   if (f.size() < 6) { fprintf(pout, "err=args\n"); return; }
@@ -373,6 +375,8 @@ static void do_walk(const std::vector<std::string> &f)
   dmem->endian = cpu_list[ci].default_endian;
   put_bytes(dmem, addr, bytes);
   std::string steps;
+  std::string texts;
+  bool want_texts = f.size() > 6 && f[6] == "1";
   char tmp[64];
   char *text = (char *)malloc(128);
   exit_called = 0;
@@ -385,9 +389,11 @@ static void do_walk(const std::vector<std::string> &f)
     while (a <= end && guard++ < 200000)
     {
       int c1 = 0, c2 = 0;
+      memset(text, 0, 128);
       int n = fn(dmem, (uint32_t)a, text, 128, cpu_list[ci].flags, &c1, &c2);
       snprintf(tmp, sizeof(tmp), "%x:%d;", (uint32_t)a, n);
       steps += tmp;
+      if (want_texts) { texts += enc_text(text, strnlen(text, 128)); texts += '\x1f'; }
       if (n <= 0) break;
       a += n;
     }
@@ -395,14 +401,14 @@ static void do_walk(const std::vector<std::string> &f)
   in_request = 0;
   cap_end(16);
   free(text);
-  fprintf(pout, "exit=%d\tsteps=%s\n", exit_called, steps.c_str());
+  fprintf(pout, "exit=%d\tsteps=%s\ttexts=%s\n", exit_called, steps.c_str(), texts.c_str());
   wipe_bytes(dmem, addr, bytes.size());
 }
 
 // ---- sweep ------------------------------------------------------------
 // sweep <cpu> <addr> <first> <count> <tailhex> <mode> <maxlen>
 //   mode bit0: return the text of every pattern; bit1: locality re-decodes.
-// Every pattern p gives the byte string [p>>8, p&255] + tail at <addr>.
+// Every pattern p gives the byte string tail[0:pos] + [p>>8, p&255] + tail[pos:] at <addr>.
 
 static std::string enc_text(const char *t, size_t n)
 {
@@ -428,6 +434,8 @@ static void do_sweep(const std::vector<std::string> &f)
   std::string tail = hexdec(f[5]);
   int mode = atoi(f[6].c_str());
   int maxlen = atoi(f[7].c_str());
+  size_t pos = f.size() > 8 ? (size_t)atoi(f[8].c_str()) : 0;
+  if (pos > tail.size()) { pos = tail.size(); }
   int unit = cpu_list[ci].bytes_per_address;
   if (dmem == NULL) { dmem = new Memory(); }
   dmem->endian = cpu_list[ci].default_endian;
@@ -452,10 +460,10 @@ static void do_sweep(const std::vector<std::string> &f)
   for (; p < first + count; p = p + 1)
   {
     progress[0] = p; progress[1] = 1;
-    std::string bytes;
+    std::string bytes = tail.substr(0, pos);
     bytes += (char)(p >> 8);
     bytes += (char)(p & 0xff);
-    bytes += tail;
+    bytes += tail.substr(pos);
     put_bytes(dmem, addr, bytes);
     memset(text, 0x7e, 128);
     int cmin = 0, cmax = 0;
@@ -674,6 +682,7 @@ int main(int argc, char *argv[])
     if (f.empty()) { continue; }
     arm_timer(timeout);
     if (f[0] == "quit") { break; }
+    else if (f[0] == "timeout" && f.size() > 1) { timeout = atoi(f[1].c_str()); fprintf(pout, "ok=1\n"); }
     else if (f[0] == "asm") { do_asm(f); }
     else if (f[0] == "dis") { do_dis(f); }
     else if (f[0] == "disr") { do_disr(f); }
